@@ -33,21 +33,32 @@ import (
 // One family per key (no repository reads a list key with Get). Normalisations, each
 // taken from how callers treat the answers: GetList/GetAllHash "not found" == empty;
 // GetExpiration compared by error class only; SetExpiration on an absent key not
-// compared (callers only touch existing keys); CAS / SetExpiration never get a
-// sub-second ttl (Redis EXPIRE has whole-second resolution).
+// compared (callers only touch existing keys); SetList / CAS / SetExpiration never get
+// a sub-second ttl (Redis EXPIRE has whole-second resolution; callers pass seconds+).
 //
 // Time: memory reads the real clock, miniredis a virtual one. A "Sleep" step sleeps
-// 60 ms for real and FastForwards miniredis by 60 ms. A key with the short ttl (40 ms)
-// is compared only where the memory side is certain (interval rule): before any sleep
-// only if the observation returned earlier than call+40 ms, after a sleep always
+// for real and FastForwards miniredis by the same amount (see c13dMode). A key with the
+// short ttl is compared only where the memory side is certain (interval rule): before
+// any sleep only if the observation returned earlier than call+short, after a sleep always
 // (certainly expired on both). Anything else taints the key until it is overwritten.
 // At the end of a history miniredis is advanced by 48 h: every key whose current
 // lifetime was given as ttl 0 must still be there ("zero never expires").
 
-const (
-	c13dShort = 40 * time.Millisecond
-	c13dLong  = time.Hour
-	c13dSleep = 60 * time.Millisecond
+const c13dLong = time.Hour
+
+// c13dMode fixes the short lifetime and the sleep of one history. "ms": 40 ms / 60 ms,
+// short ttl only for SET-based operations (Set, SetNX: millisecond resolution in Redis).
+// "sec": 1 s / 1.2 s, short ttl for every ttl-carrying operation (SetList, CAS and
+// SetExpiration use EXPIRE, whole seconds), at most two sleeps per history.
+type c13dMode struct {
+	Name  string
+	Short time.Duration
+	Sleep time.Duration
+}
+
+var (
+	c13dModeMs  = c13dMode{"ms", 40 * time.Millisecond, 60 * time.Millisecond}
+	c13dModeSec = c13dMode{"sec", time.Second, 1200 * time.Millisecond}
 )
 
 type c13dOp struct {
@@ -65,7 +76,7 @@ func c13dTTL(d time.Duration) string {
 	switch {
 	case d == 0:
 		return "0"
-	case d < time.Second:
+	case d <= time.Second:
 		return "short"
 	}
 	return "long"
@@ -280,13 +291,18 @@ var c13dFamilies = map[byte][]c13dPick{
 }
 var c13dKeys = []string{"s1", "s2", "s3", "l1", "l2", "h1", "c1"}
 
-func c13dGenerate(r *rand.Rand, nops int) []c13dOp {
+func c13dGenerate(r *rand.Rand, nops int, mode c13dMode) []c13dOp {
+	sleeps := 0
 	ops := make([]c13dOp, 0, nops)
 	last := map[string]any{}      // last scalar written per key (bias for CAS old)
 	inList := map[string][]any{} // values recently appended per list key (bias for Remove)
 	for len(ops) < nops {
 		x := r.Intn(100)
 		if x < 5 {
+			if mode.Name == "sec" && sleeps >= 2 {
+				continue
+			}
+			sleeps++
 			ops = append(ops, c13dOp{Kind: "Sleep"})
 			continue
 		}
@@ -310,8 +326,11 @@ func c13dGenerate(r *rand.Rand, nops int) []c13dOp {
 			y -= p.w
 		}
 		op := c13dOp{Kind: kind, Key: key}
-		ttl3 := []time.Duration{0, c13dShort, c13dLong}[r.Intn(3)]
-		ttl2 := []time.Duration{0, c13dLong}[r.Intn(2)]
+		ttl3 := []time.Duration{0, mode.Short, c13dLong}[r.Intn(3)]
+		ttl2 := []time.Duration{0, c13dLong}[r.Intn(2)] // EXPIRE-based operations
+		if mode.Name == "sec" {
+			ttl2 = []time.Duration{0, mode.Short, c13dLong}[r.Intn(3)]
+		}
 		str := func() any { return c13dStrings[r.Intn(len(c13dStrings))] }
 		switch kind {
 		case "Set", "SetNX":
@@ -332,11 +351,11 @@ func c13dGenerate(r *rand.Rand, nops int) []c13dOp {
 		case "SetExpiration":
 			op.TTL = ttl2
 		case "SetList":
-			n := r.Intn(4)
+			n := 1 + r.Intn(3) // an empty list is not representable in Redis: not generated
 			for i := 0; i < n; i++ {
 				op.List = append(op.List, str())
 			}
-			op.TTL = ttl3
+			op.TTL = ttl2
 			inList[key] = append([]any(nil), op.List...)
 		case "Append":
 			op.Val = str()
@@ -400,7 +419,7 @@ func c13dPrefix(ops []c13dOp, upto int) []string {
 	return out
 }
 
-func c13RunDiffHistory(t *testing.T, run *vk.Run, st *c13dStats, hidx int, ops []c13dOp) {
+func c13RunDiffHistory(t *testing.T, run *vk.Run, st *c13dStats, hidx int, ops []c13dOp, mode c13dMode) {
 	mr, err := miniredis.Run()
 	if err != nil {
 		t.Errorf("[setup failed] miniredis: %v", err)
@@ -442,7 +461,7 @@ func c13RunDiffHistory(t *testing.T, run *vk.Run, st *c13dStats, hidx int, ops [
 		return "other"
 	}
 	report := func(i int, sig string, op c13dOp, a, b c13dAns, extra map[string]any) {
-		d := map[string]any{"history": hidx, "op_index": i, "op": op.String(), "memory": a.render(), "redis": b.render(),
+		d := map[string]any{"history": hidx, "mode": mode.Name, "op_index": i, "op": op.String(), "memory": a.render(), "redis": b.render(),
 			"memory_err": a.Text, "redis_err": b.Text, "history_prefix": c13dPrefix(ops, i)}
 		for k, v := range extra {
 			d[k] = v
@@ -457,7 +476,7 @@ func c13RunDiffHistory(t *testing.T, run *vk.Run, st *c13dStats, hidx int, ops [
 		r := time.Now()
 		b = c13dApply(red, op)
 		certain = true
-		if k != nil && k.short && !k.slept && !r.Before(k.c.Add(c13dShort)) {
+		if k != nil && k.short && !k.slept && !r.Before(k.c.Add(mode.Short)) {
 			certain = false
 		}
 		_ = c
@@ -466,8 +485,8 @@ func c13RunDiffHistory(t *testing.T, run *vk.Run, st *c13dStats, hidx int, ops [
 
 	for i, op := range ops {
 		if op.Kind == "Sleep" {
-			time.Sleep(c13dSleep)
-			mr.FastForward(c13dSleep)
+			time.Sleep(mode.Sleep)
+			mr.FastForward(mode.Sleep)
 			for _, k := range tr {
 				k.slept = true
 			}
@@ -544,13 +563,13 @@ func c13RunDiffHistory(t *testing.T, run *vk.Run, st *c13dStats, hidx int, ops [
 		// lifetime bookkeeping from the (agreed) outcome
 		switch op.Kind {
 		case "Set", "SetList":
-			*k = c13dTrack{short: op.TTL == c13dShort, c: cMem, zeroTTL: op.TTL == 0}
+			*k = c13dTrack{short: op.TTL == mode.Short, c: cMem, zeroTTL: op.TTL == 0}
 		case "SetNX", "CAS":
 			if a.B {
-				*k = c13dTrack{short: op.TTL == c13dShort, c: cMem, zeroTTL: op.TTL == 0}
+				*k = c13dTrack{short: op.TTL == mode.Short, c: cMem, zeroTTL: op.TTL == 0}
 			}
 		case "SetExpiration":
-			*k = c13dTrack{short: false, zeroTTL: op.TTL == 0}
+			*k = c13dTrack{short: op.TTL == mode.Short, c: cMem, zeroTTL: op.TTL == 0}
 		case "Delete":
 			*k = c13dTrack{}
 		case "Append", "SetHash", "Incr", "IncrBy":
@@ -621,7 +640,7 @@ func c13RunDiffHistory(t *testing.T, run *vk.Run, st *c13dStats, hidx int, ops [
 		loc["ttl0_keys_checked_after_48h"]++
 		if after.Err != w.ans.Err || after.V != w.ans.V {
 			run.Violation("C13:ttl0-expired|backend=redis|family="+string(w.key[0]), map[string]any{
-				"history": hidx, "key": w.key, "before_48h": w.ans.render(), "after_48h": after.render(), "history_ops": c13dPrefix(ops, len(ops)-1)})
+				"history": hidx, "mode": mode.Name, "key": w.key, "before_48h": w.ans.render(), "after_48h": after.render(), "history_ops": c13dPrefix(ops, len(ops)-1)})
 		}
 	}
 
@@ -639,7 +658,7 @@ func TestVerifC13Differential(t *testing.T) {
 	vk.Quiet()
 	run := vk.Start(t, "C13", "differential")
 	defer run.Finish()
-	run.Rule("seeded histories of 30-80 operations in the repositories' operation/value subset (scalar string keys: Set/Get/Delete/Exists/SetNX/CAS/SetExpiration/GetExpiration; list keys; hash keys; counter keys; ttl in {0, 40 ms, 1 h}, CAS/SetExpiration ttl in {0, 1 h}) executed step by step on memory storage and on Redis storage over miniredis (sleep 60 ms mirrored by FastForward); answers and an immediate read-back compared after normalisation; finally +48 h on miniredis: ttl-0 keys must survive; distinct = (previous op > op, ttl-argument class, key class)")
+	run.Rule("seeded histories of 30-80 operations in the repositories' operation/value subset (scalar string keys: Set/Get/Delete/Exists/SetNX/CAS/SetExpiration/GetExpiration; list keys; hash keys; counter keys; ttl in {0, short, 1 h}; 7 of 8 histories: short = 40 ms for Set/SetNX only and sleep 60 ms; 1 of 8: short = 1 s for every ttl-carrying operation incl. SetList/CAS/SetExpiration and sleep 1.2 s) executed step by step on memory storage and on Redis storage over miniredis (each sleep mirrored by FastForward); answers and an immediate read-back compared after normalisation; finally +48 h on miniredis: ttl-0 keys must survive; distinct = (previous op > op, ttl-argument class, key class)")
 	nh := run.Pick(200, 6000)
 	st := &c13dStats{distinct: map[string]struct{}{}, counts: map[string]int64{}}
 	master := run.Rand("diff")
@@ -655,11 +674,15 @@ func TestVerifC13Differential(t *testing.T) {
 			defer wg.Done()
 			for j := range jobs {
 				r := rand.New(rand.NewSource(j.seed))
-				ops := c13dGenerate(r, 30+r.Intn(51))
-				if j.idx < 2 {
-					run.Sample(map[string]any{"history": j.idx, "ops": c13dPrefix(ops, len(ops)-1)})
+				mode := c13dModeMs
+				if j.idx%8 == 7 {
+					mode = c13dModeSec
 				}
-				c13RunDiffHistory(t, run, st, j.idx, ops)
+				ops := c13dGenerate(r, 30+r.Intn(51), mode)
+				if j.idx < 2 || j.idx == 7 {
+					run.Sample(map[string]any{"history": j.idx, "mode": mode.Name, "ops": c13dPrefix(ops, len(ops)-1)})
+				}
+				c13RunDiffHistory(t, run, st, j.idx, ops, mode)
 				run.Eval(1)
 			}
 		}()
